@@ -1,0 +1,23 @@
+//go:build verif
+
+package limitparallelrequests
+
+// VerifQueue is a read-only projection of one endpoint queue (verification harness only).
+type VerifQueue struct {
+	Key       uint64
+	Processed int64 // requests admitted for this endpoint and not yet released
+	Waiting   int   // requests queued behind them
+}
+
+// VerifQueues returns the endpoint queues that currently exist.
+func (c *LimitParallelRequests) VerifQueues() []VerifQueue {
+	var out []VerifQueue
+	c.endpointQueues.Range2(func(key uint64, value *endpointQueue) bool {
+		out = append(out, VerifQueue{Key: key, Processed: value.processedCounter, Waiting: len(value.orderedRequest)})
+		return true
+	})
+	return out
+}
+
+// VerifKey returns the endpoint key the limiter derives from a request's options.
+var VerifKey = hash
